@@ -9,9 +9,7 @@ use crate::{
         lexer::LexerMode,
         parser::{
             static_analysis::run_static_analysis_on_node,
-            stringify::{
-                rename_sheet_in_node, to_english_string, to_localized_string, to_rc_format,
-            },
+            stringify::{rename_sheet_in_node, to_english_string, to_rc_format},
             Node, Parser,
         },
         types::CellReferenceRC,
@@ -485,7 +483,12 @@ impl<'a> Model<'a> {
         let old_name = self.workbook.worksheet(sheet_index)?.get_name();
 
         // Parse all formulas with the old name
-        // All internal formulas are R1C1
+        // All internal formulas are R1C1 and, like the formulas of the defined names, in English:
+        // they are parsed with the English locale and language whatever the active ones are
+        let locale = self.locale;
+        let language = self.language;
+        self.parser.set_locale(get_default_locale());
+        self.parser.set_language(get_default_language());
         self.parser.set_lexer_mode(LexerMode::R1C1);
 
         for worksheet in &mut self.workbook.worksheets {
@@ -518,7 +521,7 @@ impl<'a> Model<'a> {
         for defined_name in &mut self.workbook.defined_names {
             let mut t = self.parser.parse(&defined_name.formula, cell_reference);
             rename_sheet_in_node(&mut t, sheet_index, new_name);
-            let formula = to_localized_string(&t, cell_reference, self.locale, self.language);
+            let formula = to_english_string(&t, cell_reference);
             defined_names.push(DefinedName {
                 name: defined_name.name.clone(),
                 formula,
@@ -526,6 +529,8 @@ impl<'a> Model<'a> {
             });
         }
         self.workbook.defined_names = defined_names;
+        self.parser.set_locale(locale);
+        self.parser.set_language(language);
 
         // Update the name of the worksheet
         self.workbook.worksheet_mut(sheet_index)?.set_name(new_name);
